@@ -2,6 +2,180 @@
    the ModelOK instance (Spec.v), policy order (C10, C12, C13), no-effect calls (C19). *)
 Require Import Capp.Base Capp.Spec Capp.ListCache.
 
+(* ---------- general facts about assoc / remk / setk / keys ---------- *)
+Section AssocFacts.
+  Context {K : Type} `{EqDec K} {A : Type}.
+
+  Lemma keqb_refl (k : K) : eqb k k = true.
+  Proof. destruct (eqb_spec k k); congruence. Qed.
+  Lemma keqb_neq (a b : K) : a <> b -> eqb a b = false.
+  Proof. destruct (eqb_spec a b); congruence. Qed.
+  Lemma keqb_true (a b : K) : eqb a b = true -> a = b.
+  Proof. destruct (eqb_spec a b); congruence. Qed.
+  Lemma keqb_false (a b : K) : eqb a b = false -> a <> b.
+  Proof. destruct (eqb_spec a b); congruence. Qed.
+
+  Lemma keys_app (l1 l2 : list (K * A)) : keys (l1 ++ l2) = keys l1 ++ keys l2.
+  Proof. unfold keys. apply map_app. Qed.
+
+  Lemma assoc_app k (l1 l2 : list (K * A)) :
+    assoc k (l1 ++ l2) = match assoc k l1 with Some a => Some a | None => assoc k l2 end.
+  Proof.
+    induction l1 as [|[k' a] l1 IH]; simpl; auto.
+    destruct (eqb k k'); auto.
+  Qed.
+
+  Lemma assoc_in k (l : list (K * A)) : assoc k l <> None <-> In k (keys l).
+  Proof.
+    induction l as [|[k' a] l IH]; simpl.
+    - split; [congruence | tauto].
+    - destruct (eqb_spec k k') as [E|N].
+      + split; [intros _; left; auto | congruence].
+      + rewrite IH. split; [auto | intros [E|I]; [congruence | auto]].
+  Qed.
+
+  Lemma assoc_none k (l : list (K * A)) : assoc k l = None <-> ~ In k (keys l).
+  Proof.
+    rewrite <- assoc_in. destruct (assoc k l); split; try congruence.
+    intros N. exfalso. apply N. congruence.
+  Qed.
+
+  Lemma assoc_snoc k (l : list (K * A)) k0 a0 :
+    assoc k (l ++ [(k0, a0)]) =
+    match assoc k l with Some a => Some a | None => if eqb k k0 then Some a0 else None end.
+  Proof. rewrite assoc_app. reflexivity. Qed.
+
+  Lemma assoc_remk_same k (l : list (K * A)) : assoc k (remk k l) = None.
+  Proof.
+    induction l as [|[k' a] l IH]; simpl; auto.
+    destruct (eqb k k') eqn:E; auto. simpl. rewrite E. auto.
+  Qed.
+
+  Lemma assoc_remk_other k k0 (l : list (K * A)) : k <> k0 -> assoc k (remk k0 l) = assoc k l.
+  Proof.
+    intros N. induction l as [|[k' a] l IH]; simpl; auto.
+    destruct (eqb_spec k0 k') as [E|N'].
+    - subst k'. rewrite (keqb_neq k k0 N). auto.
+    - simpl. rewrite IH. auto.
+  Qed.
+
+  Lemma assoc_setk_same k a (l : list (K * A)) :
+    assoc k (setk k a l) = match assoc k l with Some _ => Some a | None => None end.
+  Proof.
+    induction l as [|[k' a'] l IH]; simpl; auto.
+    destruct (eqb k k') eqn:E; simpl; rewrite E; auto.
+  Qed.
+
+  Lemma assoc_setk_other k k0 a (l : list (K * A)) : k <> k0 -> assoc k (setk k0 a l) = assoc k l.
+  Proof.
+    intros N. induction l as [|[k' a'] l IH]; simpl; auto.
+    destruct (eqb_spec k0 k') as [E|N'].
+    - subst k'. simpl. rewrite (keqb_neq k k0 N). auto.
+    - simpl. rewrite IH. auto.
+  Qed.
+
+  Lemma keys_setk k a (l : list (K * A)) : keys (setk k a l) = keys l.
+  Proof.
+    induction l as [|[k' a'] l IH]; simpl; auto.
+    destruct (eqb k k'); simpl; auto. f_equal. exact IH.
+  Qed.
+
+  Lemma length_setk k a (l : list (K * A)) : length (setk k a l) = length l.
+  Proof.
+    induction l as [|[k' a'] l IH]; simpl; auto.
+    destruct (eqb k k'); simpl; auto.
+  Qed.
+
+  Lemma in_keys_remk k k' (l : list (K * A)) :
+    In k' (keys (remk k l)) <-> In k' (keys l) /\ k' <> k.
+  Proof.
+    rewrite <- !assoc_in. destruct (eqb_spec k' k) as [E|N].
+    - subst. rewrite assoc_remk_same. split; [congruence | intros [_ N]; congruence].
+    - rewrite assoc_remk_other by auto. tauto.
+  Qed.
+
+  Lemma nodup_remk k (l : list (K * A)) : NoDup (keys l) -> NoDup (keys (remk k l)).
+  Proof.
+    induction l as [|[k' a] l IH]; simpl; auto.
+    intros N. inversion N as [|x r Hni Hnd]; subst.
+    destruct (eqb k k'); auto. simpl. constructor; auto.
+    intros I. apply in_keys_remk in I. tauto.
+  Qed.
+
+  Lemma length_remk_lt k (l : list (K * A)) :
+    assoc k l <> None -> S (length (remk k l)) <= length l.
+  Proof.
+    induction l as [|[k' a] l IH]; simpl; [congruence|].
+    destruct (eqb k k') eqn:E.
+    - intros _. clear IH. apply le_n_S. induction l as [|[k2 a2] l IH2]; simpl; auto.
+      destruct (eqb k k2); simpl; lia.
+    - intros Hs. simpl. apply le_n_S. auto.
+  Qed.
+
+  Lemma length_remk_le k (l : list (K * A)) : length (remk k l) <= length l.
+  Proof.
+    induction l as [|[k2 a2] l IH2]; simpl; auto.
+    destruct (eqb k k2); simpl; lia.
+  Qed.
+
+  Lemma nodup_snoc (l : list K) k : NoDup l -> ~ In k l -> NoDup (l ++ [k]).
+  Proof.
+    induction l as [|x l IH]; simpl; intros N I.
+    - constructor; [auto | constructor].
+    - inversion N; subst. constructor.
+      + rewrite in_app_iff. simpl. intros [J|[J|[]]]; auto.
+      + apply IH; auto.
+  Qed.
+
+  (* strictly increasing measure along a key list *)
+  Fixpoint incr (f : K -> nat) (l : list K) : Prop :=
+    match l with
+    | [] => True
+    | k :: r => (forall k', In k' r -> f k < f k') /\ incr f r
+    end.
+
+  Lemma incr_ext f g (l : list K) : (forall k, In k l -> f k = g k) -> incr f l -> incr g l.
+  Proof.
+    induction l as [|x l IH]; simpl; auto.
+    intros E [H1 H2]. split.
+    - intros k' I. rewrite <- !E by auto. auto.
+    - apply IH; auto.
+  Qed.
+
+  Lemma incr_snoc f (l : list K) k :
+    incr f l -> (forall k', In k' l -> f k' < f k) -> incr f (l ++ [k]).
+  Proof.
+    induction l as [|x l IH]; simpl.
+    - intros _ _. split; [intros ? []|exact I].
+    - intros [H1 H2] Hk. split.
+      + intros k' I. apply in_app_iff in I. destruct I as [I|[I|[]]]; auto. subst. auto.
+      + apply IH; auto.
+  Qed.
+
+  Lemma incr_remove f (l1 : list K) x l2 : incr f (l1 ++ x :: l2) -> incr f (l1 ++ l2).
+  Proof.
+    induction l1 as [|y l1 IH]; simpl.
+    - tauto.
+    - intros [H1 H2]. split; auto.
+      intros k' I. apply H1. rewrite in_app_iff in *. simpl. tauto.
+  Qed.
+
+  Lemma incr_last f (l : list K) k : incr f (l ++ [k]) -> forall k', In k' l -> f k' < f k.
+  Proof.
+    induction l as [|y l IH]; simpl; [tauto|].
+    intros [H1 H2] k' [E|I].
+    - subst. apply H1. rewrite in_app_iff. simpl. auto.
+    - auto.
+  Qed.
+
+  Lemma incr_remk f k (l : list (K * A)) : incr f (keys l) -> incr f (keys (remk k l)).
+  Proof.
+    induction l as [|[k' a] l IH]; simpl; auto.
+    intros [H1 H2]. destruct (eqb k k'); auto. simpl. split; auto.
+    intros k2 I. apply in_keys_remk in I. apply H1. tauto.
+  Qed.
+End AssocFacts.
+
 Section LcFacts.
   Context {K V : Type} `{EqDec K}.
   Variable p : lc_policy.
@@ -27,25 +201,490 @@ Section LcFacts.
   |}.
 
   Lemma lc_inv_init : forall cap t, 1 <= cap -> lc_inv t (lc_init cap).
-  Admitted.
+  Proof.
+    intros cap t Hc. unfold lc_inv, lc_init; simpl. repeat split; auto; try lia. constructor.
+  Qed.
+
+  (* ---- lc_get ---- *)
+  Lemma lc_get_none (s : lc K V) k : lc_get s k = None <-> assoc k (lc_items s) = None.
+  Proof. unfold lc_get. destruct (assoc k (lc_items s)); split; congruence. Qed.
+
+  Lemma lc_get_eq (s s' : lc K V) k :
+    assoc k (lc_items s') = assoc k (lc_items s) -> lc_get s' k = lc_get s k.
+  Proof. unfold lc_get. intros E; rewrite E; auto. Qed.
+
+  Lemma lc_not_dead (s : lc K V) now k : ~ deadk (lc_get s) now k.
+  Proof.
+    unfold deadk, lc_get. intros (v & d & E & _).
+    destruct (assoc k (lc_items s)); congruence.
+  Qed.
+
+  Lemma lc_livek (s : lc K V) now k : livek (lc_get s) now k <-> assoc k (lc_items s) <> None.
+  Proof.
+    unfold livek, lc_get. split.
+    - intros (v & d & E & _). destruct (assoc k (lc_items s)); congruence.
+    - intros N. destruct (assoc k (lc_items s)) as [v|]; [|congruence].
+      exists v, None. split; auto.
+  Qed.
+
+  (* ---- case analysis of the three helpers ---- *)
+  Inductive ins_case (s : lc K V) (k : K) (v : V) (a : allow) (s' : lc K V) (b : bool) : Prop :=
+  | ic_rej : b = false -> s' = s ->
+             (assoc k (lc_items s) = None -> a_ins a = false) ->
+             (assoc k (lc_items s) <> None -> a_upd a = false) -> ins_case s k v a s' b
+  | ic_touch v0 : b = true -> assoc k (lc_items s) = Some v0 -> a_upd a = true ->
+             lc_touch p = true ->
+             s' = lc_with s (remk k (lc_items s) ++ [(k, v)]) -> ins_case s k v a s' b
+  | ic_set v0 : b = true -> assoc k (lc_items s) = Some v0 -> a_upd a = true ->
+             lc_touch p = false ->
+             s' = lc_with s (setk k v (lc_items s)) -> ins_case s k v a s' b
+  | ic_new : b = true -> assoc k (lc_items s) = None -> a_ins a = true ->
+             s' = lc_with s (lc_evict p s ++ [(k, v)]) -> ins_case s k v a s' b.
+
+  Lemma lc_ins_spec s k v a s' b : lc_ins p s k v a = (s', b) -> ins_case s k v a s' b.
+  Proof.
+    unfold lc_ins. intros E. destruct (assoc k (lc_items s)) as [v0|] eqn:Ea.
+    - destruct (a_upd a) eqn:Eu.
+      + destruct (lc_touch p) eqn:Et; inversion E; subst.
+        * eapply ic_touch; eauto.
+        * eapply ic_set; eauto.
+      + inversion E; subst. apply ic_rej; auto; congruence.
+    - destruct (a_ins a) eqn:Ei; inversion E; subst.
+      + apply ic_new; auto.
+      + apply ic_rej; auto; congruence.
+  Qed.
+
+  Inductive find_case (s : lc K V) (k : K) (pk : bool) (s' : lc K V) (r : option V) : Prop :=
+  | fc_same : s' = s -> r = assoc k (lc_items s) ->
+              (r <> None -> lc_touch p && negb pk = false) -> find_case s k pk s' r
+  | fc_touch v : assoc k (lc_items s) = Some v -> r = Some v -> lc_touch p = true -> pk = false ->
+              s' = lc_with s (remk k (lc_items s) ++ [(k, v)]) -> find_case s k pk s' r.
+
+  Lemma lc_find_spec s k pk s' r : lc_find p s k pk = (s', r) -> find_case s k pk s' r.
+  Proof.
+    unfold lc_find. intros E. destruct (assoc k (lc_items s)) as [v|] eqn:Ea.
+    - destruct (lc_touch p) eqn:Et; simpl in E.
+      + destruct pk; simpl in E; inversion E; subst.
+        * apply fc_same; auto. intros _. rewrite Et. reflexivity.
+        * eapply fc_touch; eauto.
+      + inversion E; subst. apply fc_same; auto. intros _. rewrite Et. reflexivity.
+    - inversion E; subst. apply fc_same; auto. congruence.
+  Qed.
+
+  Inductive erase_case (s : lc K V) (k : K) (s' : lc K V) (b : bool) : Prop :=
+  | ec_absent : b = false -> s' = s -> assoc k (lc_items s) = None -> erase_case s k s' b
+  | ec_present v0 : b = true -> assoc k (lc_items s) = Some v0 ->
+              s' = lc_with s (remk k (lc_items s)) -> erase_case s k s' b.
+
+  Lemma lc_erase_spec s k s' b : lc_erase s k = (s', b) -> erase_case s k s' b.
+  Proof.
+    unfold lc_erase. intros E. destruct (assoc k (lc_items s)) as [v0|] eqn:Ea; inversion E; subst.
+    - eapply ec_present; eauto.
+    - apply ec_absent; auto.
+  Qed.
+
+  (* ---- eviction: either nothing, or exactly one entry (head or last) is dropped ---- *)
+  Lemma lc_evict_cases (s : lc K V) :
+    1 <= lc_cap s ->
+    (lc_evict p s = lc_items s /\ length (lc_items s) < lc_cap s) \/
+    (lc_cap s <= length (lc_items s) /\ exists l1 kx vx l2,
+        lc_items s = l1 ++ (kx, vx) :: l2 /\ lc_evict p s = l1 ++ l2 /\
+        (lc_victim_back p = false -> l1 = []) /\ (lc_victim_back p = true -> l2 = [])).
+  Proof.
+    intros Hc. unfold lc_evict.
+    destruct (Nat.leb_spec (lc_cap s) (length (lc_items s))) as [L|L].
+    - right. split; auto. destruct (lc_victim_back p).
+      + destruct (@exists_last _ (lc_items s)) as (l0 & [kx vx] & E).
+        { intro E; rewrite E in L; simpl in L; lia. }
+        exists l0, kx, vx, []. rewrite E. rewrite removelast_last. rewrite app_nil_r.
+        repeat split; auto. discriminate.
+      + destruct (lc_items s) as [|[kx vx] l2]. { simpl in L; lia. }
+        exists [], kx, vx, l2. simpl. repeat split; auto. discriminate.
+    - left; split; auto.
+  Qed.
+
+  (* facts about  l = l1 ++ x :: l2  vs  l1 ++ l2 *)
+  Lemma drop_assoc_other (l1 l2 : list (K * V)) kx vx k :
+    k <> kx -> assoc k (l1 ++ l2) = assoc k (l1 ++ (kx, vx) :: l2).
+  Proof.
+    intros N. rewrite !assoc_app. simpl. rewrite (keqb_neq k kx N). auto.
+  Qed.
+
+  Lemma drop_assoc_same (l1 l2 : list (K * V)) kx vx :
+    NoDup (keys (l1 ++ (kx, vx) :: l2)) -> assoc kx (l1 ++ l2) = None.
+  Proof.
+    intros N. apply assoc_none. rewrite keys_app in *. simpl in N.
+    apply NoDup_remove_2 in N. exact N.
+  Qed.
+
+  Lemma drop_nodup (l1 l2 : list (K * V)) kx vx :
+    NoDup (keys (l1 ++ (kx, vx) :: l2)) -> NoDup (keys (l1 ++ l2)).
+  Proof.
+    intros N. rewrite keys_app in *. simpl in N. apply NoDup_remove_1 in N. exact N.
+  Qed.
+
+  Lemma evict_in (s : lc K V) k : 1 <= lc_cap s ->
+    In k (keys (lc_evict p s)) -> In k (keys (lc_items s)).
+  Proof.
+    intros Hc I. destruct (lc_evict_cases s Hc) as [[E _]|(_ & l1 & kx & vx & l2 & E1 & E2 & _)].
+    - rewrite <- E; auto.
+    - rewrite E1. rewrite E2 in I. rewrite keys_app in *. simpl. rewrite in_app_iff in *.
+      simpl. tauto.
+  Qed.
+
+  Lemma evict_nodup (s : lc K V) : 1 <= lc_cap s ->
+    NoDup (keys (lc_items s)) -> NoDup (keys (lc_evict p s)).
+  Proof.
+    intros Hc N. destruct (lc_evict_cases s Hc) as [[E _]|(_ & l1 & kx & vx & l2 & E1 & E2 & _)].
+    - rewrite E; auto.
+    - rewrite E2. rewrite E1 in N. eapply drop_nodup; eauto.
+  Qed.
+
+  Lemma evict_length (s : lc K V) : 1 <= lc_cap s -> length (lc_items s) <= lc_cap s ->
+    S (length (lc_evict p s)) =
+    if length (lc_items s) <? lc_cap s then S (length (lc_items s)) else lc_cap s.
+  Proof.
+    intros Hc Hl. destruct (lc_evict_cases s Hc) as [[E L]|(L & l1 & kx & vx & l2 & E1 & E2 & _)].
+    - rewrite E. apply Nat.ltb_lt in L. rewrite L. auto.
+    - assert (F : length (lc_items s) <? lc_cap s = false) by (apply Nat.ltb_ge; auto).
+      rewrite F. rewrite E2. rewrite E1 in L, Hl. rewrite app_length in *. simpl in *. lia.
+  Qed.
+
+  Lemma evict_incr (s : lc K V) f : 1 <= lc_cap s ->
+    incr f (keys (lc_items s)) -> incr f (keys (lc_evict p s)).
+  Proof.
+    intros Hc N. destruct (lc_evict_cases s Hc) as [[E _]|(_ & l1 & kx & vx & l2 & E1 & E2 & _)].
+    - rewrite E; auto.
+    - rewrite E2. rewrite E1 in N. rewrite keys_app in *. simpl in N.
+      eapply incr_remove; eauto.
+  Qed.
+
+  (* ---- invariant preservation, per shape of the new list ---- *)
+  Lemma inv_touch t t' (s : lc K V) k v :
+    lc_inv t s -> assoc k (lc_items s) <> None ->
+    lc_inv t' (lc_with s (remk k (lc_items s) ++ [(k, v)])).
+  Proof.
+    intros (Hn & Hl & Hc) Ha. unfold lc_inv; simpl. repeat split; auto.
+    - rewrite keys_app. simpl. apply nodup_snoc.
+      + apply nodup_remk; auto.
+      + intros I. apply in_keys_remk in I. tauto.
+    - rewrite app_length. simpl. pose proof (length_remk_lt k _ Ha). lia.
+  Qed.
+
+  Lemma inv_set t t' (s : lc K V) k v :
+    lc_inv t s -> lc_inv t' (lc_with s (setk k v (lc_items s))).
+  Proof.
+    intros (Hn & Hl & Hc). unfold lc_inv; simpl. rewrite keys_setk, length_setk. auto.
+  Qed.
+
+  Lemma inv_rem t t' (s : lc K V) k :
+    lc_inv t s -> lc_inv t' (lc_with s (remk k (lc_items s))).
+  Proof.
+    intros (Hn & Hl & Hc). unfold lc_inv; simpl. repeat split; auto.
+    - apply nodup_remk; auto.
+    - pose proof (length_remk_le k (lc_items s)). lia.
+  Qed.
+
+  Lemma inv_new t t' (s : lc K V) k v :
+    lc_inv t s -> assoc k (lc_items s) = None ->
+    lc_inv t' (lc_with s (lc_evict p s ++ [(k, v)])).
+  Proof.
+    intros (Hn & Hl & Hc) Ha. unfold lc_inv; simpl. repeat split; auto.
+    - rewrite keys_app. simpl. apply nodup_snoc.
+      + apply evict_nodup; auto.
+      + intros I. apply evict_in in I; auto. apply assoc_none in Ha. auto.
+    - rewrite app_length. simpl. rewrite Nat.add_1_r. rewrite evict_length by auto.
+      destruct (length (lc_items s) <? lc_cap s) eqn:E; auto. apply Nat.ltb_lt in E. lia.
+  Qed.
+
+  Lemma lc_inv_step t s o now rnd s' r :
+    lc_inv t s -> single o = true -> lc_step p s o now rnd = (s', r) ->
+    lc_inv now s' /\ lc_cap s' = lc_cap s.
+  Proof.
+    intros Hi Hsg Hs.
+    destruct o; simpl in Hsg; try discriminate; simpl in Hs;
+      try (inversion Hs; subst; split; [exact Hi | reflexivity]).
+    - destruct (lc_ins p s k v a) as [s1 b] eqn:Ei. inversion Hs; subst.
+      destruct (lc_ins_spec _ _ _ _ _ _ Ei); subst; simpl; split; auto.
+      + apply inv_touch with t; auto. congruence.
+      + apply inv_set with t; auto.
+      + apply inv_new with t; auto.
+    - destruct (lc_erase s k) as [s1 b] eqn:Ee. inversion Hs; subst.
+      destruct (lc_erase_spec _ _ _ _ Ee); subst; simpl; split; auto.
+      apply inv_rem with t; auto.
+    - destruct (lc_find p s k peek) as [s1 r1] eqn:Ef. inversion Hs; subst.
+      destruct (lc_find_spec _ _ _ _ _ Ef); subst; simpl; split; auto.
+      apply inv_touch with t; auto. congruence.
+  Qed.
+
+  (* ---- frame: what a call does to a key it does not address ---- *)
+  Lemma assoc_touch (l : list (K * V)) k v k' :
+    assoc k' (remk k l ++ [(k, v)]) = if eqb k' k then Some v else assoc k' l.
+  Proof.
+    rewrite assoc_snoc. destruct (eqb_spec k' k) as [E|N].
+    - subst. rewrite assoc_remk_same. auto.
+    - rewrite assoc_remk_other by auto. destruct (assoc k' l); auto.
+  Qed.
+
+  Lemma assoc_touch_present (l : list (K * V)) k v k' :
+    assoc k l = Some v -> assoc k' (remk k l ++ [(k, v)]) = assoc k' l.
+  Proof.
+    intros E. rewrite assoc_touch. destruct (eqb_spec k' k); subst; auto.
+  Qed.
+
+  Lemma assoc_new_other (l : list (K * V)) k v k' :
+    k' <> k -> assoc k' (l ++ [(k, v)]) = assoc k' l.
+  Proof.
+    intros N. rewrite assoc_snoc. rewrite (keqb_neq _ _ N). destruct (assoc k' l); auto.
+  Qed.
+
+  Lemma lc_step_frame t s o now rnd s' r k' :
+    lc_inv t s -> single o = true -> lc_step p s o now rnd = (s', r) -> touches o k' = false ->
+    assoc k' (lc_items s') = assoc k' (lc_items s) \/
+    (exists ttl k v a, o = Insert ttl k v a /\ r = RB true /\ assoc k (lc_items s) = None /\
+                       k' <> k /\ lc_items s' = lc_evict p s ++ [(k, v)]).
+  Proof.
+    intros Hi Hsg Hs Ht.
+    destruct o; simpl in Hsg; try discriminate; simpl in Hs;
+      try (inversion Hs; subst; left; reflexivity).
+    - destruct (lc_ins p s k v a) as [s1 b] eqn:Ei. inversion Hs; subst. simpl in Ht.
+      apply keqb_false in Ht.
+      destruct (lc_ins_spec _ _ _ _ _ _ Ei); subst; simpl.
+      + left; auto.
+      + left. rewrite assoc_touch. rewrite keqb_neq; auto.
+      + left. apply assoc_setk_other; auto.
+      + right. exists ttl, k, v, a. repeat split; auto.
+    - destruct (lc_erase s k) as [s1 b] eqn:Ee. inversion Hs; subst. simpl in Ht.
+      apply keqb_false in Ht.
+      destruct (lc_erase_spec _ _ _ _ Ee); subst; simpl; left; auto.
+      apply assoc_remk_other; auto.
+    - destruct (lc_find p s k peek) as [s1 r1] eqn:Ef. inversion Hs; subst.
+      destruct (lc_find_spec _ _ _ _ _ Ef); subst; simpl; left; auto.
+      apply assoc_touch_present; auto.
+  Qed.
+
+  (* the evicted key, when there is one *)
+  Lemma evict_victim t (s : lc K V) :
+    lc_inv t s ->
+    (lc_evict p s = lc_items s /\ length (lc_items s) < lc_cap s) \/
+    (lc_cap s <= length (lc_items s) /\ exists kx,
+        assoc kx (lc_items s) <> None /\ assoc kx (lc_evict p s) = None /\
+        forall k', k' <> kx -> assoc k' (lc_evict p s) = assoc k' (lc_items s)).
+  Proof.
+    intros (Hn & Hl & Hc).
+    destruct (lc_evict_cases s Hc) as [?|(L & l1 & kx & vx & l2 & E1 & E2 & _)]; auto.
+    right. split; auto. exists kx. rewrite E1 in *. rewrite E2. repeat split.
+    - rewrite assoc_app. simpl. rewrite keqb_refl. destruct (assoc kx l1); congruence.
+    - eapply drop_assoc_same; eauto.
+    - intros k' N. apply drop_assoc_other; auto.
+  Qed.
+
+  Lemma evict_assoc_absent t (s : lc K V) k :
+    lc_inv t s -> assoc k (lc_items s) = None -> assoc k (lc_evict p s) = None.
+  Proof.
+    intros (Hn & Hl & Hc) Ha. apply assoc_none. intros I. apply evict_in in I; auto.
+    apply assoc_none in Ha. auto.
+  Qed.
+
+  Lemma evict_no_appear t (s : lc K V) k :
+    lc_inv t s -> assoc k (lc_evict p s) <> None ->
+    assoc k (lc_evict p s) = assoc k (lc_items s).
+  Proof.
+    intros Hi Ha. destruct (evict_victim t s Hi) as [[E _]|(_ & kx & _ & E1 & E2)].
+    - rewrite E; auto.
+    - destruct (eqb_spec k kx) as [E|N]; [subst; congruence | auto].
+  Qed.
+
+  Lemma lc_no_appear t s o now rnd s' r k' :
+    lc_inv t s -> single o = true -> lc_step p s o now rnd = (s', r) -> touches o k' = false ->
+    lc_get s' k' <> None -> lc_get s' k' = lc_get s k'.
+  Proof.
+    intros Hi Hsg Hs Ht Hg.
+    destruct (lc_step_frame _ _ _ _ _ _ _ _ Hi Hsg Hs Ht)
+      as [E|(ttl & k & v & a & Eo & Er & Ea & N & El)].
+    - apply lc_get_eq; auto.
+    - apply lc_get_eq. rewrite lc_get_none in Hg. rewrite El in *.
+      rewrite assoc_new_other in * by auto. eapply evict_no_appear; eauto.
+  Qed.
+
+  Lemma lc_loss t s o now rnd s' r k' :
+    lc_inv t s -> single o = true -> lc_step p s o now rnd = (s', r) -> touches o k' = false ->
+    lost_live (lc_get s) (lc_get s') now k' ->
+    (exists ttl k v a, o = Insert ttl k v a /\ r = RB true /\ lc_get s k = None) /\
+    lc_size s = lc_cap s /\ lc_size s' = lc_cap s /\
+    (forall k'', ~ deadk (lc_get s) now k'') /\
+    (forall k'', touches o k'' = false -> lost_live (lc_get s) (lc_get s') now k'' -> k'' = k').
+  Proof.
+    intros Hi Hsg Hs Ht [Hlv Hg].
+    apply lc_livek in Hlv. apply lc_get_none in Hg.
+    destruct (lc_step_frame _ _ _ _ _ _ _ _ Hi Hsg Hs Ht)
+      as [E|(ttl & k & v & a & Eo & Er & Ea & N & El)]; [congruence|].
+    rewrite El in Hg. rewrite assoc_new_other in Hg by auto.
+    destruct (evict_victim t s Hi) as [[E _]|(L & kx & Hx1 & Hx2 & Hx3)]; [congruence|].
+    assert (Ek : k' = kx).
+    { destruct (eqb_spec k' kx) as [?|N']; auto. rewrite Hx3 in Hg by auto. congruence. }
+    subst kx. destruct Hi as (Hn & Hl & Hc).
+    split; [|split; [|split; [|split]]].
+    - exists ttl, k, v, a. repeat split; auto. apply lc_get_none; auto.
+    - unfold lc_size. lia.
+    - unfold lc_size. rewrite El. rewrite app_length. simpl. rewrite Nat.add_1_r.
+      rewrite evict_length by auto.
+      assert (F : length (lc_items s) <? lc_cap s = false) by (apply Nat.ltb_ge; auto).
+      rewrite F. auto.
+    - intros k''. apply lc_not_dead.
+    - intros k'' Ht' [Hlv' Hg']. apply lc_livek in Hlv'. apply lc_get_none in Hg'.
+      subst o. simpl in Ht'. apply keqb_false in Ht'.
+      rewrite El in Hg'. rewrite assoc_new_other in Hg' by auto.
+      destruct (eqb_spec k'' k') as [?|N']; auto. rewrite Hx3 in Hg' by auto. congruence.
+  Qed.
+
+  Lemma lc_ok_find (s : lc K V) k pk now rnd s' r :
+    lc_step p s (Find k pk) now rnd = (s', r) ->
+    r = RO (lc_view s now k) /\ (lc_view s now k = None -> lc_get s' k = None).
+  Proof.
+    intros Hs. simpl in Hs. destruct (lc_find p s k pk) as [s1 r1] eqn:Ef. inversion Hs; subst.
+    unfold lc_view. destruct (lc_find_spec _ _ _ _ _ Ef) as [E1 E2 _|v Ea Er Et Ep E1]; subst.
+    - split; auto. intros E. apply lc_get_none; auto.
+    - split; [congruence|]. intros E; congruence.
+  Qed.
+
+  Lemma lc_ok_ins t s ttl k v a now rnd s' r :
+    lc_inv t s -> lc_step p s (Insert ttl k v a) now rnd = (s', r) ->
+    exists b, r = RB b /\
+      (livek (lc_get s) now k -> b = a_upd a) /\
+      (lc_get s k = None -> b = a_ins a) /\
+      (deadk (lc_get s) now k -> (a_ins a = true -> b = true) /\
+                                  (b = true -> a_ins a = true \/ a_upd a = true)) /\
+      (b = true -> lc_get s' k = Some (v, None)) /\
+      (b = false -> keeps (lc_get s) (lc_get s') now k) /\
+      (true = true -> b = true -> lc_get s k = None ->
+         lc_size s' = if lc_size s <? lc_cap s then S (lc_size s) else lc_cap s).
+  Proof.
+    intros Hi Hs. simpl in Hs. destruct (lc_ins p s k v a) as [s1 b] eqn:Ei.
+    inversion Hs; subst s1 r. clear Hs. exists b. split; auto.
+    split; [intros L; apply lc_livek in L|
+    split; [intros L; apply lc_get_none in L|
+    split; [intros D; exfalso; eapply lc_not_dead; eauto|
+    split; [intros Hb|
+    split; [intros Hb|intros _ Hb L; apply lc_get_none in L]]]]];
+    destruct (lc_ins_spec _ _ _ _ _ _ Ei)
+      as [Eb Es Hni Hnu | v0 Eb Ha Hu Ht Es | v0 Eb Ha Hu Ht Es | Eb Ha Hin Es];
+    subst b s'; try congruence; try discriminate.
+    - symmetry; auto.
+    - symmetry; auto.
+    - unfold lc_get; simpl. rewrite assoc_touch, keqb_refl. auto.
+    - unfold lc_get; simpl. rewrite assoc_setk_same, Ha. auto.
+    - unfold lc_get; simpl. rewrite assoc_snoc, keqb_refl.
+      rewrite (evict_assoc_absent t s k Hi Ha). auto.
+    - left; auto.
+    - destruct Hi as (Hn & Hl & Hc). unfold lc_size; simpl. rewrite app_length. simpl.
+      rewrite Nat.add_1_r. apply evict_length; auto.
+  Qed.
+
+  Lemma lc_ok_erase (s : lc K V) k now rnd s' r :
+    lc_step p s (Erase k) now rnd = (s', r) ->
+    exists b, r = RB b /\ lc_get s' k = None /\
+      (livek (lc_get s) now k -> b = true) /\ (b = true -> lc_get s k <> None).
+  Proof.
+    intros Hs. simpl in Hs. destruct (lc_erase s k) as [s1 b] eqn:Ee. inversion Hs; subst.
+    exists b. split; auto.
+    destruct (lc_erase_spec _ _ _ _ Ee) as [Eb Es Ha|v0 Eb Ha Es]; subst.
+    - split; [apply lc_get_none; auto|]. split; [|discriminate].
+      intros L. apply lc_livek in L. congruence.
+    - split; [apply lc_get_none; simpl; apply assoc_remk_same|]. split; auto.
+      intros _. rewrite lc_get_none. congruence.
+  Qed.
 
   Global Instance lc_ok : ModelOK lc_model.
-  Admitted.
+  Proof.
+    constructor; simpl.
+    - intros t s (Hn & _); auto.
+    - intros t s k _. rewrite <- assoc_in. rewrite lc_get_none. tauto.
+    - intros t s _. unfold lc_size, keys. rewrite map_length. reflexivity.
+    - intros t s (_ & Hl & _) _. exact Hl.
+    - intros t t' s Hi _. exact Hi.
+    - intros t s now k _ _. unfold lc_view, view_of, lc_get.
+      destruct (assoc k (lc_items s)); auto.
+    - intros t s o now rnd s' r Hi _ Hsg _ Hs. apply (lc_inv_step t s o now rnd s' r); auto.
+    - intros t s o now rnd s' r k' Hi _ Hsg _ Hs Ht Hg. apply (lc_no_appear t s o now rnd s' r k'); auto.
+    - intros t s o now rnd s' r k' Hi _ Hsg _ Hs Ht Hl. split; auto. apply (lc_loss t s o now rnd s' r k'); auto.
+    - intros t s k pk now rnd s' r _ _ _ Hs. apply (lc_ok_find s k pk now rnd s' r); auto.
+    - intros t s k pk now rnd s' r _ _ _ Hs. inversion Hs; auto.
+    - intros t s ttl k v a now rnd s' r Hi _ _ Hs. apply (lc_ok_ins t s ttl k v a now rnd s' r); auto.
+    - intros t s k now rnd s' r _ _ _ Hs. apply (lc_ok_erase s k now rnd s' r); auto.
+    - intros t s now rnd s' r _ _ _ Hs. inversion Hs; auto.
+    - intros t s now rnd s' r _ _ _ Hs. inversion Hs; auto.
+    - reflexivity.
+    - reflexivity.
+    - reflexivity.
+    - intros t s now rnd s' r _ _ Hs k. inversion Hs; auto.
+    - intros t s d now rnd s' r _ _ Hs k. inversion Hs; auto.
+  Qed.
 
   (* C19: calls without effect leave the state untouched (state equality, hence every
      continuation is identical) *)
   Lemma lc_peek_noop : forall (s : lc K V) k now rnd, fst (lc_step p s (Find k true) now rnd) = s.
-  Admitted.
+  Proof.
+    intros s k now rnd. simpl. unfold lc_find.
+    destruct (assoc k (lc_items s)); simpl; auto.
+    rewrite andb_false_r. auto.
+  Qed.
   Lemma lc_miss_noop : forall (s : lc K V) k pk now rnd,
       lc_get s k = None -> lc_step p s (Find k pk) now rnd = (s, RO None).
-  Admitted.
+  Proof.
+    intros s k pk now rnd Hg. apply lc_get_none in Hg. simpl. unfold lc_find. rewrite Hg. auto.
+  Qed.
   Lemma lc_rejected_insert_noop : forall (s : lc K V) ttl k v a now rnd s',
       lc_step p s (Insert ttl k v a) now rnd = (s', RB false) -> s' = s.
-  Admitted.
+  Proof.
+    intros s ttl k v a now rnd s' Hs. simpl in Hs.
+    destruct (lc_ins p s k v a) as [s1 b] eqn:Ei. inversion Hs; subst.
+    destruct (lc_ins_spec _ _ _ _ _ _ Ei); auto; discriminate.
+  Qed.
   Lemma lc_erase_absent_noop : forall (s : lc K V) k now rnd s',
       lc_step p s (Erase k) now rnd = (s', RB false) -> s' = s.
-  Admitted.
+  Proof.
+    intros s k now rnd s' Hs. simpl in Hs.
+    destruct (lc_erase s k) as [s1 b] eqn:Ee. inversion Hs; subst.
+    destruct (lc_erase_spec _ _ _ _ Ee); auto; discriminate.
+  Qed.
 End LcFacts.
+
+(* ---- history functions: position of the last event satisfying a predicate ---- *)
+Section HistFacts.
+  Context {K V : Type} `{EqDec K}.
+  Variable M : model K V.
+
+  Lemma lp_fold_fst (f : titem M -> bool) tr : forall a,
+    fst (fold_left (fun '(i, q) x => (S i, if f x then S i else q)) tr a) = length tr + fst a.
+  Proof.
+    induction tr as [|x tr IH]; intros [i q]; simpl; auto. rewrite IH. simpl. lia.
+  Qed.
+
+  Lemma last_pos_snoc f tr x :
+    last_pos M f (tr ++ [x]) = if f x then S (length tr) else last_pos M f tr.
+  Proof.
+    unfold last_pos. rewrite fold_left_app. simpl.
+    pose proof (lp_fold_fst f tr (0, 0)) as E.
+    destruct (fold_left _ tr (0, 0)) as [i q]. simpl in *.
+    rewrite E, Nat.add_0_r. destruct (f x); auto.
+  Qed.
+
+  Lemma last_pos_le f tr : last_pos M f tr <= length tr.
+  Proof.
+    induction tr as [|x tr IH] using rev_ind.
+    - unfold last_pos; simpl; lia.
+    - rewrite last_pos_snoc, app_length. simpl. destruct (f x); lia.
+  Qed.
+
+  Lemma last_use_snoc k tr x :
+    last_use M k (tr ++ [x]) = if uses M k x then S (length tr) else last_use M k tr.
+  Proof. apply last_pos_snoc. Qed.
+
+  Lemma created_at_snoc k tr x :
+    created_at M k (tr ++ [x]) = if creates M k x then S (length tr) else created_at M k tr.
+  Proof. apply last_pos_snoc. Qed.
+End HistFacts.
 
 (* ---- policy order.  [last_use], [created_at] are the history functions of Spec.v. ---- *)
 Section LcPolicy.
@@ -60,6 +699,163 @@ Section LcPolicy.
       lc_step p s (Insert ttl k v a) now rnd = (s', RB true) /\
       lc_get s k = None /\ lc_size s = lc_cap s.
 
+  (* a key moved (or appended) to the back gets the newest stamp *)
+  Lemma incr_move_back (f : K -> nat) n k (l : list K) :
+    incr f l -> ~ In k l -> (forall k', In k' l -> f k' <= n) ->
+    incr (fun k0 => if eqb k k0 then S n else f k0) (l ++ [k]).
+  Proof.
+    intros Hf Hni Hle. apply incr_snoc.
+    - apply incr_ext with f; auto. intros k0 I.
+      rewrite keqb_neq; auto. intros E; subst; auto.
+    - intros k' I. rewrite keqb_refl. rewrite keqb_neq.
+      + apply Hle in I. lia.
+      + intros E; subst; auto.
+  Qed.
+
+  (* the order invariant along a history, generic in the stamping predicate [u] *)
+  Lemma wruns_incr p cap (u : K -> titem (lc_model p) -> bool) :
+    (forall t (s : lc K V) e s' r f n,
+        lc_inv t s -> single (e_op e) = true ->
+        lc_step p s (e_op e) (e_now e) (e_rnd e) = (s', r) ->
+        incr f (keys (lc_items s)) -> (forall k, In k (keys (lc_items s)) -> f k <= n) ->
+        incr (fun k => if u k (s, e, r) then S n else f k) (keys (lc_items s'))) ->
+    1 <= cap ->
+    forall tr t s, wruns (lc_model p) 0 (lc_init cap) tr t s ->
+      lc_inv t s /\ incr (fun k => last_pos (lc_model p) (u k) tr) (keys (lc_items s)).
+  Proof.
+    intros Hstep Hc tr t s Hw. induction Hw as [|tr t s e s' r Hw [IHi IHs] Hsg Ht _ Hs].
+    - split; [apply lc_inv_init; auto | exact I].
+    - simpl in Hs. split.
+      + apply (lc_inv_step p t s (e_op e) (e_now e) (e_rnd e) s' r); auto.
+      + apply incr_ext with
+            (f := fun k => if u k (s, e, r) then S (length tr) else last_pos (lc_model p) (u k) tr).
+        * intros k _. cbv beta. symmetry. apply (last_pos_snoc (lc_model p) (u k) tr (s, e, r)).
+        * apply (Hstep t s e s' r (fun k => last_pos (lc_model p) (u k) tr) (length tr)); auto.
+          intros k _. apply last_pos_le.
+  Qed.
+
+  (* touch policies (lru, mru): the used key goes to the back *)
+  Lemma touch_step p t (s : lc K V) e s' r f n :
+    lc_touch p = true ->
+    lc_inv t s -> single (e_op e) = true ->
+    lc_step p s (e_op e) (e_now e) (e_rnd e) = (s', r) ->
+    incr f (keys (lc_items s)) -> (forall k, In k (keys (lc_items s)) -> f k <= n) ->
+    incr (fun k => if uses (lc_model p) k (s, e, r) then S n else f k) (keys (lc_items s')).
+  Proof.
+    intros Htp Hi Hsg Hs Hf Hle. destruct e as [o now rnd]. unfold uses. simpl in *.
+    destruct Hi as (Hn & Hl & Hc).
+    destruct o; simpl in Hsg; try discriminate; simpl in Hs;
+      try (inversion Hs; subst; simpl; exact Hf).
+    - destruct (lc_ins p s k v a) as [s1 b] eqn:Ei. inversion Hs; subst.
+      destruct (lc_ins_spec _ _ _ _ _ _ _ Ei) as
+          [Eb Es Hni Hnu | v0 Eb Ha Hu Ht Es | v0 Eb Ha Hu Ht Es | Eb Ha Hin Es]; subst; simpl.
+      + exact Hf.
+      + rewrite keys_app. simpl. apply incr_move_back.
+        * apply incr_remk; auto.
+        * intros I. apply in_keys_remk in I. tauto.
+        * intros k' I. apply in_keys_remk in I. apply Hle. tauto.
+      + congruence.
+      + rewrite keys_app. simpl. apply incr_move_back.
+        * apply evict_incr; auto.
+        * intros I. apply evict_in in I; auto. apply assoc_none in Ha. auto.
+        * intros k' I. apply evict_in in I; auto.
+    - destruct (lc_erase s k) as [s1 b] eqn:Ee. inversion Hs; subst.
+      destruct (lc_erase_spec _ _ _ _ Ee) as [Eb Es Ha|v0 Eb Ha Es]; subst; simpl; auto.
+      apply incr_remk; auto.
+    - destruct (lc_find p s k peek) as [s1 r1] eqn:Ef. inversion Hs; subst.
+      destruct (lc_find_spec _ _ _ _ _ _ Ef) as [E1 E2 E3|v Ea Er Et Ep E1]; subst; simpl.
+      + destruct peek; simpl; auto.
+        destruct (assoc k (lc_items s)) as [v|]; simpl; auto.
+        rewrite Htp in E3. simpl in E3. assert (true = false) by (apply E3; congruence).
+        discriminate.
+      + rewrite keys_app. simpl. apply incr_move_back.
+        * apply incr_remk; auto.
+        * intros I. apply in_keys_remk in I. tauto.
+        * intros k' I. apply in_keys_remk in I. apply Hle. tauto.
+    - inversion Hs; subst. destruct peek; simpl; exact Hf.
+  Qed.
+
+  (* fifo: only the creating insert appends; nothing else reorders *)
+  Lemma fifo_step p t (s : lc K V) e s' r f n :
+    lc_touch p = false ->
+    lc_inv t s -> single (e_op e) = true ->
+    lc_step p s (e_op e) (e_now e) (e_rnd e) = (s', r) ->
+    incr f (keys (lc_items s)) -> (forall k, In k (keys (lc_items s)) -> f k <= n) ->
+    incr (fun k => if creates (lc_model p) k (s, e, r) then S n else f k) (keys (lc_items s')).
+  Proof.
+    intros Htp Hi Hsg Hs Hf Hle. destruct e as [o now rnd]. unfold creates. simpl in *.
+    destruct Hi as (Hn & Hl & Hc).
+    destruct o; simpl in Hsg; try discriminate; simpl in Hs;
+      try (inversion Hs; subst; simpl; exact Hf).
+    - destruct (lc_ins p s k v a) as [s1 b] eqn:Ei. inversion Hs; subst.
+      destruct (lc_ins_spec _ _ _ _ _ _ _ Ei) as
+          [Eb Es Hni Hnu | v0 Eb Ha Hu Ht Es | v0 Eb Ha Hu Ht Es | Eb Ha Hin Es]; subst; simpl.
+      + exact Hf.
+      + congruence.
+      + rewrite keys_setk. apply incr_ext with f; auto. intros k0 _.
+        destruct (eqb_spec k k0) as [E|N]; simpl; auto. subst k0.
+        unfold lc_get. rewrite Ha. auto.
+      + rewrite keys_app. simpl.
+        apply incr_ext with (fun k0 => if eqb k k0 then S n else f k0).
+        * intros k0 _. destruct (eqb_spec k k0) as [E|N]; simpl; auto. subst k0.
+          unfold lc_get. rewrite Ha. auto.
+        * apply incr_move_back.
+          -- apply evict_incr; auto.
+          -- intros I. apply evict_in in I; auto. apply assoc_none in Ha. auto.
+          -- intros k' I. apply evict_in in I; auto.
+    - destruct (lc_erase s k) as [s1 b] eqn:Ee. inversion Hs; subst.
+      destruct (lc_erase_spec _ _ _ _ Ee) as [Eb Es Ha|v0 Eb Ha Es]; subst; simpl; auto.
+      apply incr_remk; auto.
+    - destruct (lc_find p s k peek) as [s1 r1] eqn:Ef. inversion Hs; subst.
+      destruct (lc_find_spec _ _ _ _ _ _ Ef) as [E1 E2 E3|v Ea Er Et Ep E1]; subst; simpl; auto.
+      congruence.
+  Qed.
+
+  Lemma touch_sorted p cap tr t (s : lc K V) :
+    lc_touch p = true -> 1 <= cap -> wruns (lc_model p) 0 (lc_init cap) tr t s ->
+    lc_inv t s /\ incr (fun k => last_use (lc_model p) k tr) (keys (lc_items s)).
+  Proof.
+    intros Htp Hc Hw. apply (wruns_incr p cap (uses (lc_model p))) with (tr := tr) (t := t); auto.
+    intros. eapply touch_step; eauto.
+  Qed.
+
+  Lemma fifo_sorted p cap tr t (s : lc K V) :
+    lc_touch p = false -> 1 <= cap -> wruns (lc_model p) 0 (lc_init cap) tr t s ->
+    lc_inv t s /\ incr (fun k => created_at (lc_model p) k tr) (keys (lc_items s)).
+  Proof.
+    intros Htp Hc Hw. apply (wruns_incr p cap (creates (lc_model p))) with (tr := tr) (t := t); auto.
+    intros. eapply fifo_step; eauto.
+  Qed.
+
+  (* shape of an evicting insert: exactly one resident (head, or last for mru) goes *)
+  Lemma evict_step_shape p t (s : lc K V) ttl k v a now rnd s' :
+    lc_inv t s -> lc_step p s (Insert ttl k v a) now rnd = (s', RB true) ->
+    lc_get s k = None -> lc_size s = lc_cap s ->
+    exists l1 kx vx l2,
+      lc_items s = l1 ++ (kx, vx) :: l2 /\
+      (lc_victim_back p = false -> l1 = []) /\ (lc_victim_back p = true -> l2 = []) /\
+      kx <> k /\ lc_get s kx <> None /\ lc_get s' kx = None /\
+      (forall k', k' <> k -> k' <> kx -> lc_get s' k' = lc_get s k').
+  Proof.
+    intros Hi Hs Hg Hsz. apply lc_get_none in Hg. simpl in Hs.
+    destruct (lc_ins p s k v a) as [s1 b] eqn:Ei. inversion Hs; subst. clear Hs.
+    destruct (lc_ins_spec _ _ _ _ _ _ _ Ei) as
+        [Eb Es Hni Hnu | v0 Eb Ha Hu Ht Es | v0 Eb Ha Hu Ht Es | Eb Ha Hin Es];
+      try congruence; try discriminate.
+    destruct Hi as (Hn & Hl & Hc). unfold lc_size in Hsz.
+    destruct (lc_evict_cases p s Hc) as [[_ L]|(L & l1 & kx & vx & l2 & E1 & E2 & B1 & B2)]; [lia|].
+    exists l1, kx, vx, l2. subst s'.
+    assert (Hx : assoc kx (lc_items s) <> None).
+    { rewrite E1, assoc_app. simpl. rewrite keqb_refl. destruct (assoc kx l1); congruence. }
+    assert (Nk : kx <> k) by (intros E; subst; congruence).
+    repeat split; auto.
+    - rewrite lc_get_none. auto.
+    - apply lc_get_none. simpl. rewrite E2. rewrite assoc_new_other by auto.
+      rewrite E1 in Hn. eapply drop_assoc_same; eauto.
+    - intros k' N1 N2. apply lc_get_eq. simpl. rewrite E2, E1.
+      rewrite assoc_new_other by auto. apply drop_assoc_other; auto.
+  Qed.
+
   (* C10: lru evicts the resident whose most recent use is oldest *)
   Theorem lru_victim_least_recent : forall cap tr (s : lc K V) k s',
       evicting lru_policy cap tr s k s' ->
@@ -67,7 +863,17 @@ Section LcPolicy.
         (forall k', k' <> k -> k' <> kv -> lc_get s' k' = lc_get s k') /\
         (forall k', lc_get s k' <> None -> k' <> kv ->
                     last_use (lc_model lru_policy) kv tr < last_use (lc_model lru_policy) k' tr).
-  Admitted.
+  Proof.
+    intros cap tr s k s' (t & ttl & v & a & now & rnd & Hw & Hc & Ht & Hs & Hg & Hsz).
+    destruct (touch_sorted lru_policy cap tr t s eq_refl Hc Hw) as [Hi Hinc].
+    destruct (evict_step_shape _ _ _ _ _ _ _ _ _ _ Hi Hs Hg Hsz)
+      as (l1 & kx & vx & l2 & E & B1 & _ & N & G1 & G2 & G3).
+    rewrite (B1 eq_refl) in E. simpl in E.
+    exists kx. repeat split; auto.
+    intros k' Gk Nk. rewrite lc_get_none in Gk. apply assoc_in in Gk.
+    rewrite E in Gk, Hinc. simpl in Gk, Hinc. destruct Hinc as [H1 _].
+    apply H1. destruct Gk as [Ek|I]; [congruence | auto].
+  Qed.
 
   (* C13: mru evicts the resident whose most recent use is newest *)
   Theorem mru_victim_most_recent : forall cap tr (s : lc K V) k s',
@@ -76,7 +882,18 @@ Section LcPolicy.
         (forall k', k' <> k -> k' <> kv -> lc_get s' k' = lc_get s k') /\
         (forall k', lc_get s k' <> None -> k' <> kv ->
                     last_use (lc_model mru_policy) k' tr < last_use (lc_model mru_policy) kv tr).
-  Admitted.
+  Proof.
+    intros cap tr s k s' (t & ttl & v & a & now & rnd & Hw & Hc & Ht & Hs & Hg & Hsz).
+    destruct (touch_sorted mru_policy cap tr t s eq_refl Hc Hw) as [Hi Hinc].
+    destruct (evict_step_shape _ _ _ _ _ _ _ _ _ _ Hi Hs Hg Hsz)
+      as (l1 & kx & vx & l2 & E & _ & B2 & N & G1 & G2 & G3).
+    rewrite (B2 eq_refl) in E.
+    exists kx. repeat split; auto.
+    intros k' Gk Nk. rewrite lc_get_none in Gk. apply assoc_in in Gk.
+    rewrite E in Gk, Hinc. rewrite keys_app in Gk, Hinc. simpl in Gk, Hinc.
+    apply (incr_last _ _ _ Hinc).
+    apply in_app_iff in Gk. destruct Gk as [I|[Ek|[]]]; [auto | congruence].
+  Qed.
 
   (* C12: fifo evicts the resident that was inserted earliest; updates and lookups
      do not change [created_at] by definition *)
@@ -86,7 +903,17 @@ Section LcPolicy.
         (forall k', k' <> k -> k' <> kv -> lc_get s' k' = lc_get s k') /\
         (forall k', lc_get s k' <> None -> k' <> kv ->
                     created_at (lc_model fifo_policy) kv tr < created_at (lc_model fifo_policy) k' tr).
-  Admitted.
+  Proof.
+    intros cap tr s k s' (t & ttl & v & a & now & rnd & Hw & Hc & Ht & Hs & Hg & Hsz).
+    destruct (fifo_sorted fifo_policy cap tr t s eq_refl Hc Hw) as [Hi Hinc].
+    destruct (evict_step_shape _ _ _ _ _ _ _ _ _ _ Hi Hs Hg Hsz)
+      as (l1 & kx & vx & l2 & E & B1 & _ & N & G1 & G2 & G3).
+    rewrite (B1 eq_refl) in E. simpl in E.
+    exists kx. repeat split; auto.
+    intros k' Gk Nk. rewrite lc_get_none in Gk. apply assoc_in in Gk.
+    rewrite E in Gk, Hinc. simpl in Gk, Hinc. destruct Hinc as [H1 _].
+    apply H1. destruct Gk as [Ek|I]; [congruence | auto].
+  Qed.
 
   (* C13, second half: after the insert the new key is the most recently used *)
   Theorem mru_new_key_is_most_recent : forall cap tr t (s : lc K V) e s' ttl k v a,
@@ -95,5 +922,21 @@ Section LcPolicy.
       forall k', lc_get s' k' <> None -> k' <> k ->
         last_use (lc_model mru_policy) k' (tr ++ [(s, e, RB true)]) <
         last_use (lc_model mru_policy) k (tr ++ [(s, e, RB true)]).
-  Admitted.
+  Proof.
+    intros cap tr t s e s' ttl k v a Hc Hw Eo k' Hg Nk.
+    assert (E1 : uses (lc_model mru_policy) k' (s, e, RB true) = false).
+    { unfold uses. rewrite Eo. apply keqb_neq; auto. }
+    assert (E2 : uses (lc_model mru_policy) k (s, e, RB true) = true).
+    { unfold uses. rewrite Eo. apply keqb_refl. }
+    pose proof (last_use_snoc (lc_model mru_policy) k' tr (s, e, RB true)) as L1.
+    rewrite E1 in L1.
+    pose proof (last_use_snoc (lc_model mru_policy) k tr (s, e, RB true)) as L2.
+    rewrite E2 in L2.
+    pose proof (last_pos_le (lc_model mru_policy) (uses (lc_model mru_policy) k') tr) as L.
+    apply Nat.le_lt_trans with (last_use (lc_model mru_policy) k' tr).
+    { apply Nat.eq_le_incl. exact L1. }
+    apply Nat.lt_le_trans with (S (length tr)).
+    { apply Nat.lt_succ_r. exact L. }
+    apply Nat.eq_le_incl. symmetry. exact L2.
+  Qed.
 End LcPolicy.
